@@ -135,4 +135,34 @@ example : inline id
      (.str "top", .tuple [.fn 0, .dict [(.str "a", .tuple [.fn 1, .int 7])], .list [.int 7, .int 7],
                           .tuple [.int 3, .str ""]])] := by decide
 
+/-! ### a finding of this round: renamed keys versus literals (legacy `fuse_linear` / `fuse`, `rename_keys=True`)
+
+In a legacy graph a hashable value equal to a key is a reference. `fuse_linear` and `fuse` store a fused chain under a new
+name after checking only that the name is not a key of the graph or of the result; a literal equal to that name, anywhere in
+the graph, thereby becomes a reference to the fused task. Recorded as a finding (known_findings.json, corpus/C09). -/
+
+/-- **Refutation witness** (replayed on /repo by section `renlit`): the real output of
+    `fuse_linear({'a': 1, 'b': (inc, 'a'), 'c': (add, 'b', 'a-b-c')}, keys=['c'])` is
+    `{'a-b-c': (add, (inc, 1), 'a-b-c'), 'c': 'a-b-c'}`. The proved checker rejects it, and `c`, which denoted
+    `add(inc(1), 'a-b-c')`, has no value any more (the fused task refers to itself). -/
+theorem fuse_linear_renamed_literal_refuted :
+    let g : LGraph := [(.str "a", .int 1), (.str "b", .tuple [.fn 1, .str "a"]),
+                       (.str "c", .tuple [.fn 0, .str "b", .str "a-b-c"])]
+    let h : LGraph := [(.str "a-b-c", .tuple [.fn 0, .tuple [.fn 1, .int 1], .str "a-b-c"]), (.str "c", .str "a-b-c")]
+    fuseOKR g h [.str "a", .str "b"] [(.str "c", .str "a-b-c")] [.str "c"] = false ∧
+    legacyGet g (.str "c") = some (.app 0 [.app 1 [.int 1] [], .str "a-b-c"] []) ∧
+    legacyGet h (.str "c") = none := by decide
+
+/-- … and with the literal in another task the value changes silently:
+    `{'a': 1, 'b': (inc, 'a'), 'c': (dbl, 'b'), 'd': (f, 'c', 'a-b-c', 'c')}`, `keys=['d']` ↦
+    `{'a-b-c': (dbl, (inc, 1)), 'd': (f, 'a-b-c', 'a-b-c', 'a-b-c')}` -/
+theorem fuse_linear_renamed_literal_silent_refuted :
+    let g : LGraph := [(.str "a", .int 1), (.str "b", .tuple [.fn 1, .str "a"]), (.str "c", .tuple [.fn 2, .str "b"]),
+                       (.str "d", .tuple [.fn 4, .str "c", .str "a-b-c", .str "c"])]
+    let h : LGraph := [(.str "a-b-c", .tuple [.fn 2, .tuple [.fn 1, .int 1]]),
+                       (.str "d", .tuple [.fn 4, .str "a-b-c", .str "a-b-c", .str "a-b-c"])]
+    legacyGet g (.str "d") = some (.app 4 [.app 2 [.app 1 [.int 1] []] [], .str "a-b-c", .app 2 [.app 1 [.int 1] []] []] []) ∧
+    legacyGet h (.str "d") = some (.app 4 [.app 2 [.app 1 [.int 1] []] [], .app 2 [.app 1 [.int 1] []] [],
+                                          .app 2 [.app 1 [.int 1] []] []] []) := by decide
+
 end Dask.C09
